@@ -23,6 +23,22 @@ def U(e: ast.AST) -> str:
     return ast.unparse(e)
 
 
+def clone(e: ast.AST) -> ast.AST:
+    """Structural copy without the parent links (copy.deepcopy would follow `_parent` and copy the whole module)."""
+    if isinstance(e, ast.AST):
+        new = e.__class__()
+        for f in e._fields:
+            if hasattr(e, f):
+                setattr(new, f, clone(getattr(e, f)))
+        for a in ("lineno", "col_offset", "end_lineno", "end_col_offset"):
+            if hasattr(e, a):
+                setattr(new, a, getattr(e, a))
+        return new
+    if isinstance(e, list):
+        return [clone(x) for x in e]
+    return e
+
+
 class Subst(ast.NodeTransformer):
     """Replace Name loads by expressions (A4: single-definition locals)."""
 
@@ -31,8 +47,7 @@ class Subst(ast.NodeTransformer):
 
     def visit_Name(self, n: ast.Name):
         if isinstance(n.ctx, ast.Load) and n.id in self.env:
-            import copy
-            return copy.deepcopy(self.env[n.id])
+            return clone(self.env[n.id])
         return n
 
     def visit_Attribute(self, n: ast.Attribute):
@@ -40,18 +55,16 @@ class Subst(ast.NodeTransformer):
         if isinstance(n.ctx, ast.Load):
             t = attr_chain(n)
             if t is not None and t in self.env:
-                import copy
-                return copy.deepcopy(self.env[t])
+                return clone(self.env[t])
         return self.generic_visit(n)
 
 
 def subst(e: ast.expr, env: Optional[Dict[str, ast.expr]]) -> ast.expr:
     if not env:
         return e
-    import copy
     out = e
     for _ in range(4):  # chains of temporaries
-        new = Subst(env).visit(copy.deepcopy(out))
+        new = Subst(env).visit(clone(out))
         if ast.dump(new) == ast.dump(out):
             break
         out = new
